@@ -22,7 +22,9 @@ MANIFEST = dict(
          'default-on-composite members, reserved `other`, no member name twice along the chain of parents - which also '
          'says the chain ends), enumerated subtypes (root without parent, each subtype known, a struct, a child of the '
          'root, listed once under a fresh tag, all children listed, leaves not extended), routes (three legal types, '
-         '`deprecated by` an existing route version). Corollaries: `legal_accepted` (a spec that violates none is never '
+         '`deprecated by` an existing route version), patches (the definition with the canonical name of the patch is a '
+         'struct / union of the same kind and closedness; no member of a patch is a declared member of the type or a '
+         'member of another patch of it; the merged declaration obeys the rules for structs and unions). Corollaries: `legal_accepted` (a spec that violates none is never '
          'refused, and none of the model`s recursion bounds is hit), `violation_refused` (any violation, anywhere, in any '
          'order, is refused), `compile_error_sound` (every error kind is only produced on illegal input), '
          '`acceptance_by_rules`, `buildEnv_ok_iff`. The only hypothesis is `nsLexical` (namespace names contain no "/": '
@@ -77,7 +79,7 @@ MANIFEST = dict(
     note='Trusted: Lean kernel, translator, generators and injectors (what they never produce is never checked), CPython re '
          '(whether a pattern compiles is an external parameter of the model), the REAL parser as the producer of the '
          'compile model`s input. The iff for whole specs is PROVED for the compile model`s subset (no docs, annotations '
-         'applied to members, examples, patches, route attributes, default values; type references with mixed literal / '
+         'applied to members, examples, route attributes, default values; type references with mixed literal / '
          'type positional arguments or a type passed by keyword are outside its input) and observed by testing beyond it. '
          'compile_ok_iff_legal does not say WHICH error kind an illegal input gets (several violations: the order of the '
          'passes decides; single violations: compared by comp.compile), and the fuel / internal answers of the model are '
@@ -131,7 +133,7 @@ def run(ck):
         'argument lists come from the parser: literals, null, or type references (resolved before the outer reference)',
     ])
     ck.note('accepted = legal is PROVED for the compile model (type graph) and its rule set is compared with the real '
-            'compiler (comp.legal); for everything the model leaves out (docs, annotations on members, examples, patches, '
+            'compiler (comp.legal); for everything the model leaves out (docs, annotations on members, examples, '
             'route attributes, default values) acceptance / refusal of whole specs is evaluated by testing')
     return ck.finish(rule=fe_rules.RULE)
 
